@@ -180,6 +180,12 @@ pub fn generate(tier: Tier, rng: &mut Rng) -> Vec<Case> {
                 out.extend(src_case(&spec, right, vec!["chain", "right-nested"]));
             }
         }
+        // the extremes written as hexadecimal literals, on either side of every operator
+        for op in ["+", "-", "*", "/", "%"] {
+            for (l, r) in [("-0x8000000000000000", "1"), ("1", "-0x8000000000000000"), ("-0x8000000000000000", "-1"), ("0x7FFFFFFFFFFFFFFF", "1"), ("-0x7FFFFFFFFFFFFFFF", "0x1"), ("0xFFFFFFFFFFFFFFFFu", "0x1u"), ("0x0", "-0x8000000000000000"), ("-0x8000000000000000", "-0x8000000000000000")] {
+                out.extend(src_case(&spec, format!("{l} {op} {r}"), vec!["chain", "hex-literals"]));
+            }
+        }
         for src in ["a + z + b + c", "a + b + c", "a + (b + c)", "a + c + b", "d - b + b", "d + b - b", "d - (b - b)", "a + z + z + z + b", "b + c + a + b", "(a + c) + (b + z)", "a - c - b - b", "d + a + d + a",
             "ua + uz + ub - ub", "ua - ub + ub", "ua + (ub - ub)", "uz - ub + ub", "ub + ua - ub", "a * b * c * c", "d * c * c", "d / c * z", "a + b * z", "(a + b) * z", "z * (a + b)", "a % b + a + b"] {
             out.extend(src_case(&spec, src.to_string(), vec!["chain", "fixed"]));
